@@ -23,17 +23,17 @@ CLAIMED = {
  "C07": ("Same traces: Formatter!Total on every Format event (outcome ok/parse_error only, ok iff the input parses by an independent parse, thread-CPU bound); "
          "worker crashes and timeouts are recorded as events, never tool errors.",
          "G->R->V: Formatter!Total on recorded Format events (panic/crash/timeout are data)", "5 C07"),
- "C03": ("Catalogue of ~50 construct templates x every inter-token slot x comment kind (MC_Trivia; NTok cross-checked against the renderer), each formatted under every column width and "
+ "C03": ("Catalogue of ~55 construct templates x every inter-token slot x comment kind (MC_Trivia; NTok cross-checked against the renderer), each formatted under every column width and "
          "every collapse / call-parentheses value; TLC judges the comment census (own lexer) and the code-token normal form on every recorded Format event; plus the repository's test inputs.",
          "G->R->V: Formatter!CensusKept + TokensKept on recorded traces of slot-enumerated comment placements", "5 C03"),
  "C04": ("Exhaustive: every quoted body over the 18-symbol escape alphabet up to length 3 (and length 4 over the 7 escape-critical symbols) in both quote kinds, under 3 dialects, 4 quote styles x 2 line endings, "
          "5 syntactic positions for short bodies; long-bracket bodies (levels 0-2) and numeric spellings per dialect. Strings!Decode evaluated by TLC on input and output symbols decides; "
          "the design-level obligation RewriteSafe (transcribed regex tiling) is checked by TLC on every enumerated body; the Rust decoder is cross-checked against Strings!Decode on every case.",
          "TLC model Strings (RewriteSafe invariant) + G->R->V with Strings!Decode", "5 C04"),
- "C08": ("Statement sequences (MC_Block: skeletons x directives/semicolons/comments within a deviation budget, nested containers) replayed; the harness records per-statement byte facts matched by structural path; "
+ "C08": ("Statement sequences (MC_Block: skeletons x directives (line and multi-line block-comment forms)/semicolons/comments/untidy end of file within a deviation budget, nested containers) and require sequences with directives under sort_requires (MC_SortRequires) replayed; the harness records per-statement byte facts matched by structural path; "
          "TLC folds the block loop (Block!DisabledAt) to decide which statements had to be verbatim and judges VerbatimIgnored and, differentially against the directive-neutralised run, StillFormatted.",
          "G->R->V: Block!IgnoreFails (fold of the block loop over recorded statement facts)", "5 C08"),
- "C09": ("MC_Block with symbolic range markers (before/inside-first-token/after/last-byte/inside-last-token of every statement, 0, len, max) resolved to bytes by the harness; TLC classifies every statement "
+ "C09": ("MC_Block with symbolic range markers (before/inside-first-token/after/last-byte/inside-last-token of every statement, 0, len, max) resolved to bytes by the harness, with tidy and untidy ends of file (extra blank lines, indented comment); TLC classifies every statement "
          "inside/boundary/outside (three-valued: code and README differ by one on the end bound) and judges verbatim-outside, equal-to-whole-file-inside, prefix and suffix.",
          "G->R->V: Block!RangeFails on recorded statement facts", "5 C09"),
  "C10": ("Trivia templates rendered with CRLF/mixed endings and space/mixed indentation (incl. block comments with mixed interior endings), formatted under every (line_endings, indent_type, indent_width) x widths; "
@@ -50,7 +50,7 @@ CLI_NOTE = ("Trusted base: TLC 1.8.0; the add-only hooks of src/cli/verif_hooks.
             "(tree materialisation outside git repositories, uid 65534 via setpriv, file snapshots); vh libfmt for expected contents. "
             "Bounded: generator constants in spec/MC_*.cfg; only executed scenarios count.")
 CLI_CLAIMED = {
- "C13": ("Every sequence of <= 2 (thorough: 3) files over 9 classes (formatted, unformatted, unparseable, missing, unreadable, read-only, verification-failing, crashing, non-UTF-8), "
+ "C13": ("Every sequence of <= 2 (thorough: 3) files over 10 classes (formatted, unformatted, differing only in line terminators, unparseable, missing, unreadable, read-only, verification-failing, crashing, non-UTF-8), "
          "named explicitly or inside a directory, x mode x 4 output formats x --verify x thread counts, run on the hooked binary; each run's hook trace (dispatch, fs_write, atomic accesses to the exit "
          "status, exit) is replayed through Cli.tla's actions by TLC, the traced atomics must agree with the model value, and the final observation (bytes, mtimes, created files, exit, printed diffs) is judged by Cli!FinalFails.",
          "G(MC_CliFiles)->R(hooked binary)->V(Trace_Cli over Cli.tla)", "5 C13"),
@@ -58,17 +58,17 @@ CLI_CLAIMED = {
          "(crashing worker via the fault point; verification failure via --verify --sort-requires).",
          "G(MC_CliFiles)->R->V(Cli!FinalFails, write mode)", "5 C14"),
  "C19": ("The accesses to the exit status are extracted per thread role from a free run of the CURRENT binary; TLC enumerates every interleaving of them with every arrival order of results (ExitCode.tla, invariant StatusTruthful, "
-         "liveness Terminates) and each interleaving is forced on the real binary through the hook scheduler; plus a free-running --num-threads 1..16 sweep and the C13/C14 scenario space under several thread counts.",
+         "liveness Terminates) and each interleaving is forced on the real binary through the hook scheduler; plus free-running --num-threads 1..16 sweeps (mixed outcomes; directories with different indent settings, so that nothing a worker formatted earlier leaks into the next file) and the C13/C14 scenario space under several thread counts.",
          "TLC model ExitCode (all interleavings) replayed as forced schedules + trace validation", "5 C19"),
  "C15": ("Exhaustive within the deviation budget: every placement of <= 2 (thorough: 3) configuration files (stylua.toml / .stylua.toml / both, .editorconfig with/without root) on a spine of 5 directories around the working directory "
          "and in the four XDG/HOME locations, x option sets (--config-path, --search-parent-directories, --no-editorconfig, a command-line override) x target sets including several targets in one run (memo interaction), a directory, stdin with/without "
          "--stdin-filepath. Every file carries a distinct indent width, so the applied configuration is read off the output and judged by ConfigSearch!Resolve; the memoised search is transcribed (ImplHistory) and TLC checks it refines Resolve for every history.",
          "TLC model ConfigSearch (ImplRefines invariant) + G->R->V", "5 C15"),
  "C16": ("A fixed tree (nested directories, hidden entries, .luau and non-Lua files) with .styluaignore files at two levels over a pattern language (name, dir/, *.ext, /anchored, negations; <= 2 patterns), x argument lists (files, directories, overlapping, "
-         "repeated, two spellings) x --respect-ignores / --allow-hidden; processed set (bytes changed) and dispatch events judged against Selection!Selected (gitignore semantics in TLA+), with a stated tolerance for an explicitly named ignored directory.",
+         "repeated, two spellings, a directory together with an explicit non-Lua file in both orders) x -g glob lists (selecting, excluding, mixed order, directory exclusion, dir/**) x --respect-ignores / --allow-hidden; processed set (bytes changed) and dispatch events judged against Selection!Selected (gitignore semantics in TLA+), with a stated tolerance for an explicitly named ignored directory.",
          "TLC model Selection + G->R->V (processed set and dispatch counts)", "5 C16"),
  "C17": ("Input classes (valid, invalid, empty, CRLF, no final newline, large) x write/check in 4 formats x --stdin-filepath situations (none, not ignored, ignored directory 1-3 levels up, ignored file, ignored without --respect-ignores, directory with its own "
-         "stylua.toml) x extras; stdout compared with the library's output / the input / empty, exit status, no fs_write event, tree snapshot unchanged.",
+         "stylua.toml, directory with its own .editorconfig) x extras; stdout compared with the library's output / the input / empty, exit status, no fs_write event, tree snapshot unchanged.",
          "G(MC_Stdin)->R->V(Trace_Cli!StdinFails)", "5 C17"),
  "C18": ("(original, formatted) pairs from real formatting: every sequence of <= 4 edit-shape segments (unchanged, changed, expanding, collapsing, blank-run, moved by require sorting) x {LF, CRLF, no final newline}, and the repository's test inputs at several widths, "
          "through --check in all four formats; TLC applies the parsed unified hunks / JSON mismatches to the original (Diff!ApplyUnified / ApplyJson over line identifiers) and compares with the library's output; the JSON construction is transcribed (ImplJson) and checked at design level.",
